@@ -368,3 +368,135 @@ def cone_min_support(cols, b, kmax=None, positive=False):
 
 def in_cone(cols, b):
     return cone_min_support(cols, b) is not None
+
+
+# --------------------------------------------------------------------------------------------------
+# Minimum weighted route decompositions (C03 / C04) and route families
+# --------------------------------------------------------------------------------------------------
+
+def _min_hitting(sets, n):
+    """min number of indices (from range(n)) hitting every set in `sets`; None if a set is empty"""
+    sets = [s for s in sets]
+    if not sets:
+        return 0
+    if any(len(s) == 0 for s in sets):
+        return None
+    cand = sorted(set().union(*sets))
+    for k in range(1, len(sets) + 1):
+        for c in itertools.combinations(cand, k):
+            cs = set(c)
+            if all(s & cs for s in sets):
+                return k
+    return None
+
+
+def min_decomp(cols, f, wtype, cons_sets=(), kmax=None):
+    """Minimum number of routes (columns; a column gives the number of traversals of each non-ignored
+    element) with non-negative weights of type wtype ('int'|'float') such that sum_i w_i col_i == f and every
+    constraint (given as the set of route indices that satisfy it) is satisfied by some chosen route (a route
+    chosen only for a constraint may have weight 0). Returns (k, witness) or (None, None).
+    Exact: int by exhaustive DFS over positive integer weights, float by enumeration of linearly independent
+    supports with exact rational solve (a minimum-cardinality positive representation is independent)."""
+    n = len(cols)
+    m = len(f)
+    cons_sets = [set(c) for c in cons_sets]
+    best = [None, None]
+    kmax = kmax if kmax is not None else n + len(cons_sets)
+
+    def consider(support, weights):
+        rem = [c for c in cons_sets if not (c & set(support))]
+        extra = _min_hitting(rem, n)
+        if extra is None:
+            return
+        tot = len(support) + extra
+        if tot <= kmax and (best[0] is None or tot < best[0]):
+            best[0] = tot
+            best[1] = {"support": list(support), "weights": [str(w) for w in weights], "extra_zero_weight_routes": extra}
+
+    if all(x == 0 for x in f):
+        consider((), ())
+        return best[0], best[1]
+    if wtype == "int":
+        order = sorted(range(n), key=lambda j: -sum(cols[j]))
+
+        def rec(pos, rem, sup, ws):
+            if best[0] is not None and len(sup) >= best[0]:
+                return
+            if all(r == 0 for r in rem):
+                consider(tuple(sup), tuple(ws))
+                return
+            if pos == len(order) or len(sup) >= kmax:
+                return
+            j = order[pos]
+            col = cols[j]
+            if any(col):
+                mx = min((r // c for r, c in zip(rem, col) if c), default=0)
+            else:
+                mx = 0
+            for w in range(int(mx), 0, -1):
+                rec(pos + 1, tuple(r - w * c for r, c in zip(rem, col)), sup + [j], ws + [w])
+            rec(pos + 1, rem, sup, ws)
+        rec(0, tuple(f), [], [])
+    else:
+        for k in range(1, min(n, m, kmax) + 1):
+            if best[0] is not None and k >= best[0]:
+                break
+            for sub in itertools.combinations(range(n), k):
+                sol = _solve_exact([cols[j] for j in sub], f)
+                if sol is None or not all(x > 0 for x in sol):
+                    continue
+                consider(sub, sol)
+                if best[0] is not None and best[0] <= k:
+                    break
+    return best[0], best[1]
+
+
+def walk_vectors(g, cap):
+    """All multiplicity vectors x over g.arcs (base arcs, x[e] <= cap[e]) that are the arc multiset of a walk
+    from a start to an end of g (Euler: balanced at every node except +1 at the start / -1 at the end, the
+    support connected from the start). Returns list of (vector tuple, start, end); a vector that admits several
+    (start,end) choices is reported once per choice."""
+    E = g.arcs
+    out = []
+    ranges = [range(int(cap[e]) + 1) for e in E]
+    starts = set(g.starts)
+    ends = set(g.ends)
+    for x in itertools.product(*ranges):
+        if not any(x):
+            continue
+        bal = {v: 0 for v in g.nodes}
+        for (u, v), c in zip(E, x):
+            if c:
+                bal[u] += c
+                bal[v] -= c
+        pos = [v for v in g.nodes if bal[v] > 0]
+        neg = [v for v in g.nodes if bal[v] < 0]
+        if any(abs(b) > 1 for b in bal.values()) or len(pos) > 1 or len(neg) > 1:
+            continue
+        cands = []
+        if len(pos) == 1 and len(neg) == 1:
+            if pos[0] in starts and neg[0] in ends:
+                cands = [(pos[0], neg[0])]
+        elif not pos and not neg:
+            used = set()
+            for (u, v), c in zip(E, x):
+                if c:
+                    used.add(u)
+                    used.add(v)
+            cands = [(v, v) for v in g.nodes if v in starts and v in ends and v in used]
+        for s0, t0 in cands:
+            adj = collections.defaultdict(list)
+            for (u, v), c in zip(E, x):
+                if c:
+                    adj[u].append(v)
+            seen = {s0}
+            st = [s0]
+            while st:
+                a = st.pop()
+                for b in adj[a]:
+                    if b not in seen:
+                        seen.add(b)
+                        st.append(b)
+            if all((not c) or (u in seen) for (u, v), c in zip(E, x)):
+                out.append((tuple(x), s0, t0))
+    return out
